@@ -662,6 +662,8 @@ Fixpoint run (s : state) (ops : list op) : list (out * Z) * state :=
 
 (* every operation took a regular branch *)
 Definition all_clear (res : list (out * Z)) : bool := forallb (fun p : out * Z => snd p =? 0) res.
+(* the zero-separator panic (the one surviving defect class) did not occur *)
+Definition no_zsep (res : list (out * Z)) : bool := forallb (fun p : out * Z => negb (snd p =? F_ZSEP)) res.
 Fixpoint first_flag (a : list (out * Z)) : Z :=
   match a with [] => 0 | (_, f) :: r => if f =? 0 then first_flag r else f end.
 Definition abs_of (s : state) : list entry := abs (depth (root s)) (root s).
